@@ -97,13 +97,14 @@ class LoopSpec:
     symbols of the same class and constrained by inv).
     """
 
-    def __init__(self, name, inv, havoc_world=(), shapes=None, on_havoc=None, on_bind=None):
+    def __init__(self, name, inv, havoc_world=(), shapes=None, on_havoc=None, on_bind=None, lemmas=None):
         self.name = name
         self.inv = inv
         self.havoc_world = tuple(havoc_world)
         self.shapes = shapes or {}
         self.on_havoc = on_havoc
         self.on_bind = on_bind
+        self.lemmas = lemmas        # lemmas(it, fr, i) -> list of facts to assume (instances of proved lemmas / definitions)
 
     def havoc(self, it, s, fr):
         st = it.st
@@ -127,6 +128,7 @@ class LoopSpec:
         if is_for and not isinstance(iterable, SymSeq):
             raise Unsupported('loop contract %s expects a symbolic sequence, got %r' % (self.name, iterable))
         zero = z3.IntVal(0) if is_for else None
+        self._lem(it, fr, zero)
         st.check(self.name + '.inv-entry', 'inv-entry', self.inv(it, fr, zero))
         # arbitrary iteration or exit
         if is_for:
@@ -134,6 +136,8 @@ class LoopSpec:
             i = st.fresh('iter_' + self.name.split('.')[-1], z3.IntSort())
             if st.branch(z3.And(i >= 0, i < n)):
                 self.havoc(it, s, fr)
+                self._lem(it, fr, i)
+                self._lem(it, fr, i + 1)
                 st.assume(self.inv(it, fr, i))
                 it.assign(s.target, iterable.elem(i), fr)
                 if self.on_bind:
@@ -142,6 +146,7 @@ class LoopSpec:
                 return      # reached only on break
             self.havoc(it, s, fr)
             st.assume(n >= 0)
+            self._lem(it, fr, n)
             st.assume(self.inv(it, fr, n))
             it.exec_block(s.orelse, fr)
             return
@@ -152,6 +157,11 @@ class LoopSpec:
             it.exec_block(s.orelse, fr)
             return
         self._body(it, s, fr, None)
+
+    def _lem(self, it, fr, i):
+        if self.lemmas:
+            for f in self.lemmas(it, fr, i):
+                it.st.assume(f)
 
     def _body(self, it, s, fr, nxt):
         st = it.st
